@@ -168,12 +168,42 @@ def q_perturb(shape, wmax, attr, dmax, which):
                  desc=f"single-attribute perturbation of {attr} on shape {shape}")
 
 
+def q_perturb_by_operation(shape, wmax):
+    """the other sequence is a copy changed through the public API (both of its views exist before the change)"""
+    def fn(ctx):
+        b, cont = base(ctx, shape, wmax, True)
+        a = build_abs(cont)
+        d = ctx.int("delta", 1, 3)
+        out = {}
+        for name in ("transpose", "set_channel", "pad_only"):
+            x = a.copy()
+            x.abs
+            x.rel
+            if name == "transpose":
+                x.transpose(d)
+            elif name == "set_channel":
+                x.set_channel(d)
+            else:
+                x.pad(cont.total + d)
+            out[name] = [all_flags(a, x), all_flags(x, a)]
+        ctx.must("transposed_copy_differs", not any(out["transpose"][0]) and not any(out["transpose"][1]))
+        want_ch = [bool(f[0]) for f in FLAGS]
+        ctx.must("rechannelled_copy_differs_unless_ignored", all(out["set_channel"][0][k] is want_ch[k] and
+                                                                  out["set_channel"][1][k] is want_ch[k] for k in range(16)))
+        ctx.must("padded_copy_equal", all(out["pad_only"][0]) and all(out["pad_only"][1]))
+        return out
+    return Query(f"by_operation/{shape}/w{wmax}", fn, ["transposed_copy_differs", "rechannelled_copy_differs_unless_ignored",
+                                                      "padded_copy_equal"], desc="copies changed by transpose / set_channel / pad")
+
+
 def queries(tier, seed):
     qs = []
     wmax, dmax = (16, 6) if tier == "quick" else (32, 12)
     shapes = ["ov", "seq", "sim", "simw_ts", "simw_ks"] + (["n3"] if tier == "thorough" else [])
     note_orders = [[0, 1] + [2 + j for j in p] for p in itertools.permutations(range(4))]
     rot = [list(range(k, 6)) + list(range(k)) for k in range(6)]
+    qs.append(q_perturb_by_operation("ov", 8))
+    qs.append(q_perturb_by_operation("seq", 8))
     for s in shapes:
         qs.append(q_same(s, wmax))
         if s.startswith("simw"):
